@@ -127,6 +127,7 @@ theorem accessOK_empty : ∀ (t : Ty), accessOK t.empty = true := by
   | nullable t ih => simp [Ty.empty, accessOK, ih]
   | map k v ihk ihv => simp [Ty.empty, accessOK, sortedB, ihk, ihv]
   | pair a b iha ihb => simp [Ty.empty, accessOK, iha, ihb]
+  | versioned v t ih => simp [Ty.empty, accessOK, ih]
   | _ => simp [Ty.empty, accessOK]
 
 /-- **A successful decode is consistent**: the column has the type asked for, reports exactly
@@ -293,6 +294,14 @@ theorem decCol_consistent (cfg : Cfg) (hm : cfg.monotone = true) : ∀ (t : Ty) 
     obtain ⟨h5, _⟩ := pure_ok_inv h
     subst h5
     exact ⟨rfl, rfl⟩
+  | versioned v t ih =>
+    intro rows bs c r h
+    simp only [decCol] at h
+    obtain ⟨x, _, h1, h2⟩ := bind_ok_inv h
+    obtain ⟨h3, _⟩ := pure_ok_inv h2
+    subst h3
+    obtain ⟨hx1, hx2⟩ := ih rows _ x _ h1
+    exact ⟨hx1, by simp [accessOK, hx2]⟩
 
 end Col
 end Model
@@ -384,6 +393,7 @@ def Ty.maxW : Ty → Nat
   | .map k v => max 8 (max k.maxW v.maxW)
   | .pair a b => max a.maxW b.maxW
   | .unit => 0
+  | .versioned _ t => t.maxW
 
 /-- the abstract machine has at least the memory the library's own caps allow a decoder to ask for:
 `maxRows` rows of the widest element (or of 127-byte short strings), and one string of the size limit -/
@@ -538,6 +548,10 @@ theorem decCol_graceful (cfg : Cfg) : ∀ (t : Ty) (W : Nat), AllocOK cfg W → 
     exact Graceful.bind' (iha W h (by omega) rows hr) fun _ =>
       Graceful.bind' (ihb W h (by omega) rows hr) fun _ => Graceful.pure _
   | unit => intro W h hw rows hr; exact Graceful.pure _
+  | versioned v t ih =>
+    intro W h hw rows hr
+    simp only [Ty.maxW] at hw
+    exact Graceful.bind' (ih W h hw rows hr) fun _ => Graceful.pure _
 
 end Col
 end Model
